@@ -22,6 +22,11 @@ CLAIMS = {
          "sorted, and independent of list permutation and of map iteration order; all paths of the bound explored, solver-decided.",
          "Bounds as coded in harness/.../core/validators/paths/zz_verif_c15.go; fmt %q/%s modelled by the engine's fmt intrinsic; ApiValidator's diagnostics wiring not yet covered.",
          "DESIGN.md 4 (C15)"),
+ "C17": ("Every history of up to 3 public operations (add node of two kinds, add edge, remove edge by kind or all kinds, remove node) with symbolic operands over 3 node ids, 2 file versions and 2 edge kinds, "
+         "started from the empty graph: afterwards Exists/Get/GetEdges (outgoing iff incoming, each edge once)/Children/Parents/Descendants/FindByKind of the real SymbolGraph equal a slice-based set-of-nodes/set-of-edges model "
+         "(cascade removal as a fixpoint, version replacement). Thorough: 4 operations.",
+         "Bounds as coded in harness/.../graphs/symboldg/zz_verif_c17.go. Histories are bounded (no inductive step yet); AddStruct/AddEnum/AddField composite insertions are not yet driven.",
+         "DESIGN.md 4 (C17)"),
  "C20": ("Honoured-in-output kernel: for every permission string up to the stated length, if the configuration validator's own pattern (read from the struct tag, matched by the real regexp package executed symbolically) accepts it, "
          "getOutputFileMod returns exactly its octal value (0644 for empty); PermissionStringToFileMod errors iff the string is not an octal numeral within 0o7777.",
          "Bounds as coded in harness/.../generator/routes/zz_verif_c20.go. Outside: json5 decoding and go-playground validator semantics, controllerGlobs, file modes applied by the OS, the other config fields (not yet covered).",
